@@ -609,6 +609,16 @@ def _np_dtype(it, spec):
        "new array holding the value for a scalar; with dtype= a cast copy when the dtype differs")
 def _np_asarray(it, x, dtype=None, **kw):
     x = const_float(x)
+    for k_, v_ in kw.items():
+        if k_ in ("order", "like") and v_ is None:
+            continue
+        if k_ == "order" and is_array(x):
+            # a memory layout is requested: NumPy copies unless the data already has it
+            if it.branch(it.fresh_bool("asarray_has_requested_layout")):
+                continue
+            d0 = np_dtype(it, dtype) if dtype is not None else SDtype(arr_kind(x), arr_itemsize(x))
+            return cast_array(it, x, d0, "asarray_relayout")
+        raise Unsupported("np.asarray keyword %s" % k_)
     if is_array(x):
         if dtype is None:
             return SNd(arr_buf(x), arr_scalar(x), arr_size(x), "asarray")
